@@ -205,8 +205,90 @@ static void fill_sym(FaultInfo &fi, void *uc_)
                 snprintf(fi.sym, sizeof fi.sym, "outside-lib");
 }
 
+// ---- diagnostic (SIM_REACH=<file>): which labelled code blocks of the library are ever entered.  Every symbol in the
+// executable segment (NASM keeps local labels) gets an INT3; the first arrival restores the byte and records the label.
+static std::vector<uint8_t> g_reach_orig;  // per symbol: original byte (valid while armed)
+static std::vector<uint8_t> g_reach_state; // 0 not patched, 1 armed, 2 reached
+static bool g_reach_on = false;
+static bool reach_trap(void *uc_)
+{
+        ucontext_t *uc = (ucontext_t *) uc_;
+        uintptr_t ip = uc->uc_mcontext.gregs[REG_RIP] - 1;
+        if (ip < g_lib.text_lo || ip >= g_lib.text_hi)
+                return false;
+        size_t lo = 0, hi = g_lib.syms.size();
+        while (hi - lo > 1) {
+                size_t mid = (lo + hi) / 2;
+                if (g_lib.syms[mid].addr <= ip)
+                        lo = mid;
+                else
+                        hi = mid;
+        }
+        // several symbols may share an address: restore through all of them
+        bool hit = false;
+        for (size_t k = lo + 1; k-- > 0 && g_lib.syms[k].addr == ip;)
+                if (g_reach_state[k] == 1) {
+                        *(volatile uint8_t *) ip = g_reach_orig[k];
+                        g_reach_state[k] = 2;
+                        hit = true;
+                }
+        if (!hit)
+                return false;
+        uc->uc_mcontext.gregs[REG_RIP] = ip;
+        return true;
+}
+void reach_arm()
+{
+        if (!getenv("SIM_REACH"))
+                return;
+        uintptr_t lo = g_lib.text_lo & ~4095ul, hi = (g_lib.text_hi + 4095) & ~4095ul;
+        if (mprotect((void *) lo, hi - lo, PROT_READ | PROT_WRITE | PROT_EXEC)) {
+                perror("SIM_REACH mprotect");
+                return;
+        }
+        g_reach_orig.assign(g_lib.syms.size(), 0);
+        g_reach_state.assign(g_lib.syms.size(), 0);
+        for (size_t k = 0; k < g_lib.syms.size(); k++) {
+                const LibSym &sy = g_lib.syms[k];
+                if (sy.addr < g_lib.text_lo || sy.addr >= g_lib.text_hi || sy.type == 'O')
+                        continue;
+                if (sy.name.find("@plt") != std::string::npos || sy.name == "_init" || sy.name == "_fini")
+                        continue;
+                if (k > 0 && g_lib.syms[k - 1].addr == sy.addr && g_reach_state[k - 1] == 1) {
+                        g_reach_orig[k] = g_reach_orig[k - 1];
+                        g_reach_state[k] = 1;
+                        continue;
+                }
+                g_reach_orig[k] = *(volatile uint8_t *) sy.addr;
+                g_reach_state[k] = 1;
+                *(volatile uint8_t *) sy.addr = 0xCC;
+        }
+        struct sigaction sa;
+        sigaction(SIGSEGV, nullptr, &sa);
+        sigaction(SIGTRAP, &sa, nullptr);
+        g_reach_on = true;
+}
+void reach_dump()
+{
+        if (!g_reach_on)
+                return;
+        for (size_t k = 0; k < g_lib.syms.size(); k++) // disarm: the library's own exit code runs after our tables are gone
+                if (g_reach_state[k] == 1)
+                        *(volatile uint8_t *) g_lib.syms[k].addr = g_reach_orig[k];
+        g_reach_on = false;
+        FILE *f = fopen(getenv("SIM_REACH"), "a");
+        if (!f)
+                return;
+        for (size_t k = 0; k < g_lib.syms.size(); k++)
+                if (g_reach_state[k])
+                        fprintf(f, "%d %s\n", g_reach_state[k] == 2, g_lib.syms[k].name.c_str());
+        fclose(f);
+}
+
 static void on_fault(int sig, siginfo_t *si, void *uc)
 {
+        if (sig == SIGTRAP && g_reach_on && reach_trap(uc))
+                return;
         if ((sig == SIGSEGV || sig == SIGBUS || sig == SIGTRAP || sig == SIGILL) && g_segv_hook && g_segv_hook(sig, si, uc))
                 return;
         GuardCtx *g = t_guard;
@@ -249,7 +331,7 @@ static void on_fault(int sig, siginfo_t *si, void *uc)
                 }
         }
         char b[160];
-        int n = snprintf(b, sizeof b, "INFRA stray signal %d addr=%p outside guarded region\n", sig, si ? si->si_addr : 0);
+        int n = snprintf(b, sizeof b, "INFRA stray signal %d addr=%p rip=%p (lib base %p) outside guarded region\n", sig, si ? si->si_addr : 0, (void *) ((ucontext_t *) uc)->uc_mcontext.gregs[REG_RIP], (void *) g_lib.base);
         if (write(2, b, n)) {
         }
         _exit(70);
